@@ -11,28 +11,36 @@ _ctx = re.compile(r', ctx=(Load|Store|Del)\(\)|ctx=(Load|Store|Del)\(\), |ctx=(L
 
 
 def ndump(node):
-    """Structure dump with expression contexts and Constant.kind removed and whitespace after newlines inside string
-    constants neutralised (documented docstring re-indentation).  Does not copy or mutate the node."""
+    """Structure dump with expression contexts and Constant.kind removed and whitespace after newlines inside
+    DOCSTRING-like string constants (str value of an expression statement, or the dumped node itself) neutralised
+    (documented docstring re-indentation; bytes and strings elsewhere are exact).  Does not copy or mutate the node."""
     out = []
-    _nd(node, out)
+    if isinstance(node, (ast.Expression, ast.Interactive)) and isinstance(node.body, ast.Constant):
+        node = node.body
+    _nd(node, out, False, isinstance(node, ast.Constant))
     return ''.join(out)
 
 
 def ndump_ml(node):
-    """ndump in which, additionally, every run of two or more blanks inside a string Constant is neutralised: the physical continuation lines of such a string are re-indented with their
-    block (documented, option `docstr`), and after a backslash-newline inside the quotes that indentation is part of
-    the value without any newline character to mark the place."""
+    """ndump in which, additionally, the indentation-dependent whitespace of DOCSTRING-like strings is neutralised
+    (whitespace after a newline, runs of blanks where a backslash-newline inside the quotes continues the string): a
+    str Constant that is the value of an expression statement - pfst's default `docstr=True` documents that the physical
+    continuation lines of such strings are re-indented with their block - or that is itself the node being dumped (the
+    extracted value of such a statement).  bytes and strings in any other position are compared exactly."""
     out = []
-    _nd(node, out, True)
+    if isinstance(node, (ast.Expression, ast.Interactive)) and isinstance(node.body, ast.Constant):
+        node = node.body
+    _nd(node, out, True, isinstance(node, ast.Constant))
     return ''.join(out)
 
 
-def _nd(node, out, ml=False):
-    if ml and isinstance(node, ast.Constant) and isinstance(node.value, (str, bytes)):
+def _nd(node, out, ml=False, doc=False):
+    if doc and isinstance(node, ast.Constant) and isinstance(node.value, str):
         # by value, not by position: the same string may be multi-line on one side of a comparison and unparsed onto one
         # line (exact value kept) on the other
-        v = node.value
-        v = re.sub(r'[ \t]{2,}', ' ', re.sub(r'\n[ \t]*', '\n', v)) if isinstance(v, str) else re.sub(rb'[ \t]{2,}', b' ', re.sub(rb'\n[ \t]*', b'\n', v))
+        v = re.sub(r'\n[ \t]*', '\n', node.value)
+        if ml:
+            v = re.sub(r'[ \t]{2,}', ' ', v)
         out.append('Constant(value=' + repr(v) + ', )')
         return
     if isinstance(node, ast.AST):
@@ -44,7 +52,7 @@ def _nd(node, out, ml=False):
                 continue
             v = getattr(node, f, None)
             out.append(f + '=')
-            _nd(v, out, ml)
+            _nd(v, out, ml, f == 'value' and isinstance(node, ast.Expr))
             out.append(', ')
         out.append(')')
     elif isinstance(node, list):
@@ -53,8 +61,6 @@ def _nd(node, out, ml=False):
             _nd(x, out, ml)
             out.append(', ')
         out.append(']')
-    elif isinstance(node, str) and '\n' in node:
-        out.append(repr(re.sub(r'\n[ \t]*', '\n', node)))
     else:
         out.append(repr(node))
 
